@@ -23,6 +23,7 @@ func propC02(c *Ctx) propInfo {
 	c.floor("E7.preimage", 5)
 	c.floor("E8.depth-limit", 2)
 	c.floor("E7.pruned-accessors", 4)
+	c.tailZero()
 	return propInfo{
 		explanation: "Static structural clauses of C02 (DESIGN.md §4 C02): nothing reachable from the hashing functions reads a read-cursor or writes a field of the cell being hashed; every public hash entry point reaches the one implementation (newImmutableCell) and differs only in the cache passed; in the per-level loop the descriptor and the mask-dependent representation take their mask from mask.Apply(level) of the loop level, the preimage is written in the order representation|previous hash, all child depths (2 bytes big-endian), all child hashes, with the child level shifted exactly for the two Merkle types; the depth limit dominates the append of a depth; pruned-branch accessors use strides 32 and 2 from base 2. Decides these necessary conditions, not the level-mask arithmetic nor numeric hash values.",
 	}
@@ -357,4 +358,118 @@ func (c *Ctx) hashConstants() {
 		okv := constObjEquals(p, name, w)
 		c.check(okv, R, name+" == "+fmt.Sprint(w), token.NoPos, "protocol constant matches the TON specification", fmt.Sprintf("boc.%s is no longer %d", name, w))
 	}
+}
+
+// tailZero: the representation (bocReprWithoutRefs) copies the raw buffer and ORs the completion
+// tag in, so it relies on the invariant "bits at positions >= len are zero". Bit-level writers
+// keep it (On/Off at len); every *bulk* copy into a BitString buffer must either clone a whole
+// buffer together with its len, set a byte-aligned len, or mask the last byte afterwards.
+func (c *Ctx) tailZero() {
+	const R = "E10.tail-zero"
+	// the consumer: confirm the reliance exists (otherwise the rule is moot and must be revisited)
+	if f := c.mustFn(R, "boc", "Cell.bocReprWithoutRefs"); f != nil {
+		uses := len(callsTo(f, modPath+"/boc.Cell.getBuffer")) == 1
+		c.check(uses, R, "representation copies the raw buffer (relies on a zero tail)", f.Pos(), "copy(res[2:], c.getBuffer()) | tag bit", "bocReprWithoutRefs no longer copies the raw buffer: the zero-tail invariant rule must be revisited")
+	}
+	isBufField := func(v ssa.Value) bool {
+		tn, fn, ok := fieldOf(v)
+		return ok && fn == "buf" && tn == "boc.BitString"
+	}
+	n := 0
+	for _, f := range c.moduleFuncs("boc") {
+		allInstrs(f, func(_ *ssa.BasicBlock, in ssa.Instruction) {
+			cl, ok := in.(*ssa.Call)
+			if !ok {
+				return
+			}
+			b, ok := cl.Call.Value.(*ssa.Builtin)
+			if !ok || b.Name() != "copy" {
+				return
+			}
+			dst := cl.Call.Args[0]
+			base := dst
+			if sl, ok := base.(*ssa.Slice); ok {
+				base = sl.X
+			}
+			toBuf := false
+			if u, ok := base.(*ssa.UnOp); ok && isBufField(u.X) {
+				toBuf = true
+			}
+			if !toBuf {
+				// a local slice that is stored into a BitString's buf field in this function
+				if refs := base.Referrers(); refs != nil {
+					for _, r := range *refs {
+						if st, ok := r.(*ssa.Store); ok && st.Val == base && isBufField(st.Addr) {
+							toBuf = true
+						}
+					}
+				}
+			}
+			if !toBuf {
+				return
+			}
+			n++
+			key := fnName(f) + " bulk copy into BitString.buf"
+			src := cl.Call.Args[1]
+			// (a) whole-buffer clone: the source is another BitString's complete buffer
+			if u, ok := src.(*ssa.UnOp); ok && isBufField(u.X) {
+				c.ok(R, key, cl.Pos(), "clones a complete buffer (the clone's len is the source's len, checked by the literal rule)")
+				return
+			}
+			// (d) len is set to a whole number of bytes afterwards
+			aligned := false
+			masked := false
+			allInstrs(f, func(_ *ssa.BasicBlock, in2 ssa.Instruction) {
+				st, ok := in2.(*ssa.Store)
+				if !ok {
+					return
+				}
+				if tn, fn, ok := fieldOf(st.Addr); ok && tn == "boc.BitString" && (fn == "len" || fn == "cap") {
+					if bo, ok := st.Val.(*ssa.BinOp); ok && bo.Op == token.MUL {
+						if k, ok := constInt(bo.Y); ok && k == 8 {
+							aligned = true
+						}
+					}
+				}
+				// (b) buf[i] &= mask after the copy
+				if ia, ok := st.Addr.(*ssa.IndexAddr); ok {
+					if bo, ok := st.Val.(*ssa.BinOp); ok && bo.Op == token.AND {
+						if ld, ok := bo.X.(*ssa.UnOp); ok && sameIndexAddr(ld.X, ia) {
+							if u, ok := ia.X.(*ssa.UnOp); ok && isBufField(u.X) && cl.Block().Dominates(st.Block()) {
+								// guarded by n&7 != 0
+								for _, ft := range factsAt(f, st.Block()) {
+									if bb, ok := ft.Cond.(*ssa.BinOp); ok && (bb.Op == token.NEQ || bb.Op == token.EQL) {
+										if a, ok := bb.X.(*ssa.BinOp); ok && a.Op == token.AND {
+											if k, ok := constInt(a.Y); ok && k == 7 {
+												masked = true
+											}
+										}
+									}
+								}
+							}
+						}
+					}
+				}
+			})
+			switch {
+			case masked:
+				c.ok(R, key, cl.Pos(), "the last copied byte is masked when the bit count is not a multiple of 8")
+			case aligned:
+				c.ok(R, key, cl.Pos(), "len is set to 8*len(bytes): no partial last byte at the time of the copy")
+			default:
+				c.bad(R, key, cl.Pos(), fnName(f)+" copies whole bytes into a BitString buffer whose bit length need not be a multiple of 8 and does not clear the bits after len: the cell representation (raw buffer | completion tag) and therefore hash and BOC bytes of a cell built from it depend on bits that are not part of the value")
+			}
+		})
+	}
+	c.floor(R, 4)
+	_ = n
+}
+
+// sameIndexAddr: go/ssa does no CSE, `x[i] op= y` yields two IndexAddr instructions.
+func sameIndexAddr(v ssa.Value, ia *ssa.IndexAddr) bool {
+	if v == ssa.Value(ia) {
+		return true
+	}
+	o, ok := v.(*ssa.IndexAddr)
+	return ok && o.X == ia.X && o.Index == ia.Index
 }
